@@ -264,6 +264,45 @@ def gen_cases(tier):
     return cases
 
 
+def run_reuse(case):
+    """one Assign OBJECT applied to a sequence of targets; each application must equal a fresh Assign"""
+    path, vkind, mname, targets = case
+    from glom import T as T_
+    mk_t = {'empty': lambda: {'x': 'vx0'}, 'has-a': lambda: {'a': {}, 'x': 'vx1'}, 'has-ab': lambda: {'a': {'b': {}}, 'x': 'vx2'},
+            'list': lambda: {'a': [{'b': 1}], 'x': 'vx3'}, 'obj': lambda: {'a': MR.Obj(b=MR.Obj()), 'x': 'vx4'}}
+    val = {'T': lambda: T_['x'], 'spec': lambda: Spec(('x', lambda v: v + '!')), 'lit': lambda: 'L'}[vkind]
+    factory = {None: None, 'dict': dict, 'obj': MR.Obj}[mname]
+    kw = {} if factory is None else {'missing': factory}
+    shared = Assign(path, val(), **kw)
+    for i, tn in enumerate(targets):
+        outs = []
+        for spec in (Assign(path, val(), **kw), shared):
+            t = mk_t[tn]()
+            try:
+                glom(t, spec)
+                outs.append(('ok', MR.canon(t)))
+            except Exception as e:
+                outs.append(('err', type(e).__name__, MR.canon(t)))
+        if outs[0] != outs[1]:
+            return R({'expected': 'application #%d of the re-used Assign equals a fresh Assign: %r' % (i + 1, outs[0]), 'observed': repr(outs[1]),
+                      'path': path, 'value': vkind, 'missing': mname, 'targets': targets}, 'reuse')
+    return R(None, 'ok', steps=len(targets), tags={vkind, str(mname)})
+
+
+def gen_reuse(tier):
+    names = ['empty', 'has-a', 'has-ab', 'list', 'obj']
+    cases = []
+    for path in ('a.b.c', 'a.b', 'a.0.b', 'q.r'):
+        for vkind in ('T', 'spec', 'lit'):
+            for mname in (None, 'dict', 'obj'):
+                for n in (2, 3):
+                    for seq in itertools.product(names, repeat=n):
+                        if n == 3 and tier == 'quick' and len(set(seq)) == 3:
+                            continue
+                        cases.append([path, vkind, mname, list(seq)])
+    return cases
+
+
 def subs(tier, only=None):
     from ..engine import fast_tracebacks
     from . import c14
@@ -275,6 +314,10 @@ def subs(tier, only=None):
                             'compared with plain nested assignment on a copy (canonical snapshots, spine identities, read-back, factory call count)',
                        min_nontrivial=5000, min_outcomes=3,
                        required_tags=SPELLINGS + VALUES + [str(m) for m in MISSING] + MR.KINDS))
+    if only in (None, 'assign-reuse'):
+        out.append(Sub('assign-reuse', gen_reuse(tier), run_reuse,
+                       rule='case = (path, value kind evaluated per target, missing factory, sequence of 2-3 targets): ONE Assign object applied to each target '
+                            'in turn equals a fresh Assign every time', min_nontrivial=100, min_outcomes=1))
     if only in (None, 'wildcard-assign'):
         out.append(Sub('wildcard-assign', [c for c in c14.gen_mutate(tier) if c[2] == 'assign'], c14.run_mutate,
                        rule='case = (tree-shaped target, destination with 1-4 wildcards, function|spec form): assignment at every match, in order, '
